@@ -86,6 +86,8 @@ inductive Qry where
   -- caller's slice is unchanged after the call)
   | fAll (j : Nat)                -- FindMatching(tx, rolesIndex, sharedValues[j])  and  IteratorMatchingAllOf(…)(tx, true) collected
   | fAny (j : Nat)                -- FindMatchingAnyOf (sorted by the harness: map order)  and  IteratorMatchingAnyOf(…)(tx, true)
+  -- round 6: a filter in a spelling (keyword case, white space inside keyword operators) no earlier parse used
+  | qSpelled (t : Nat)            -- QueryIds  <fresh spelling of template t>: the answer of the canonical text
   deriving DecidableEq, Repr
 
 /-- the shared values slices of the harness (role numbers; deliberately not ascending, with a duplicate, empty, single) -/
@@ -136,6 +138,20 @@ def sharedPred (j : Nat) (e : Ent) : Bool :=
   | 13 => !([100, 131].contains e.name) && nameStartsN1 e.name       -- name not in ["n100", "n131"] and name contains "n1"
   | _ => true
 
+/-- the predicates of the spelling templates (harness/c18_spell.go c18SpellTemplates); template 7 is the sorted one -/
+def spelledPred (t : Nat) (e : Ent) : Bool :=
+  match t with
+  | 0 => !nameStartsN1 e.name                          -- name not contains "n1"
+  | 1 => !([1, 3].contains e.rank)                     -- rank not in [1, 3]
+  | 2 => !(1 ≤ e.rank && e.rank < 3)                   -- rank not between 1 and 3
+  | 3 => nameStartsN1 e.name                           -- name icontains "N1"
+  | 4 => [0, 2].contains e.rank                        -- rank in [0, 2]
+  | 5 => nameStartsN1 e.name && 2 ≤ e.rank && e.rank < 5   -- name contains "n1" and rank between 2 and 5
+  | 6 => e.roles.contains 1 || 4 ≤ e.rank              -- anyOf(roles) = "r1" or rank >= 4
+  | 8 => e.roles.isEmpty                               -- isEmpty(roles) or name = null
+  | 9 => 1 < e.roles.length                            -- count(roles) > 1 skip 0 limit 100
+  | _ => true
+
 /-- the externally computed symbols of the harness' store: pure functions of the row id -/
 def extEven (id : Nat) : Bool := id % 2 == 0
 def extStr (id : Nat) : Option Nat := if id % 4 == 3 then none else some (id % 3)
@@ -175,6 +191,9 @@ def evalQ (q : Qry) (v : Ver) : List Nat :=
   | .qShared j =>
     if j == 12 then (((v.foldl (fun acc e => insertTop e acc) []).drop 1).take 3).map (·.id)   -- true sort by rank desc skip 1 limit 3
     else (v.filter (sharedPred j)).map (·.id)
+  | .qSpelled t =>
+    if t == 7 then (v.foldl (fun acc e => insertTop e acc) []).map (·.id)      -- true sort by rank desc limit none
+    else (v.filter (spelledPred t)).map (·.id)
   | .fAll j =>
     1 :: (if (sharedVals j).isEmpty then [] else (v.filter (fun e => (sharedVals j).all (e.roles.contains ·))).map (·.id))
   | .fAny j => 1 :: (v.filter (fun e => (sharedVals j).any (e.roles.contains ·))).map (·.id)
